@@ -199,7 +199,7 @@ def classify(rel):
     return top
 
 
-def build_once(pname, ch, opts, stale=None, perms=None):
+def build_once(pname, ch, opts, stale=None, perms=None, outdir="doc"):
     files = PROJECTS[pname]
     names = sorted(f for f in files if f.startswith("src/"))
     perms = perms or list(itertools.permutations(names))
@@ -212,10 +212,16 @@ def build_once(pname, ch, opts, stale=None, perms=None):
         root = fordrun.new_root()
         if any(f.startswith("pages/") for f in files):
             opts = dict(opts, page_dir="pages")
+        if outdir != "doc":
+            opts = dict(opts, output_dir=outdir)
         if stale == "other":
-            fordrun.write_tree(root, {"doc/module/stale.html": "<html>stale</html>", "doc/src/old.f90": "! old", "doc/index.html": "old", "doc/extra/deep/file.txt": "x"})
-        elif stale == "same":
-            r0 = fordrun.build(files, opts, stage="write", root=root, keep=True, proj_body=FRONT)
+            fordrun.write_tree(root, {f"{outdir}/module/stale.html": "<html>stale</html>", f"{outdir}/src/old.f90": "module stale_old\n!! a module of another project\nend module stale_old\n",
+                                      f"{outdir}/index.html": "old", f"{outdir}/extra/deep/file.txt": "x"})
+        elif stale in ("same", "same-twice"):
+            for _ in range(2 if stale == "same-twice" else 1):
+                r0 = fordrun.build(files, opts, stage="write", root=root, keep=True, proj_body=FRONT)
+                if r0.error is not None:
+                    return r0, perm, list(nd.EVENTS)
         r = fordrun.build(files, opts, stage="write", root=root, keep=True, proj_body=FRONT)
         events = list(nd.EVENTS)
         return r, perm, events
@@ -436,20 +442,27 @@ def main(tier, replay_path=None):
     total = Stats()
     for st in core.pmap(explore_project, sharded):
         total.merge(st)
-    # stale output directories must not matter either: compare the three stale states at the default schedule
+    # stale output directories must not matter either: compare the stale states at the default schedule, for an output
+    # directory beside the sources, directly inside the source directory and two levels below it
     st = Stats()
     for pname in PROJECTS:
-        snaps = {}
-        for stale in (None, "other", "same"):
-            r, _, _ = build_once(pname, None, OPTS["graph"], stale)
-            snaps[stale] = snapshot(r.out, r.root)
-            r.cleanup()
-            st.evaluations += 1
-        for stale in ("other", "same"):
-            if snaps[stale] != snaps[None]:
-                diff = sorted(k for k in set(snaps[stale]) | set(snaps[None]) if snaps[stale].get(k) != snaps[None].get(k))
-                st.violation("output-depends-on-previous-output", f"{pname}/stale", dict(project=pname, options="graph", stale=stale, deviation_kinds="history", sites="", differing=classify(diff[0])),
-                             dict(project=pname, stale=stale), diff[:6], "byte-identical output")
+        for outdir in ("doc", "src/doc", "src/build/doc"):
+            snaps = {}
+            for stale in (None, "other", "same", "same-twice"):
+                r, _, _ = build_once(pname, None, OPTS["graph"], stale, outdir=outdir)
+                st.evaluations += 1
+                if r.error is not None or r.stage_reached != "write":
+                    st.violation("ford-failed", f"{pname}/stale", dict(project=pname, options="graph", stale=stale or "", deviation_kinds="history", sites="", outdir=outdir),
+                                 dict(project=pname, stale=stale, outdir=outdir), (repr(r.error) + " " + r.log[-200:])[:400], "the run completes whatever an earlier run left behind")
+                    snaps[stale] = None
+                else:
+                    snaps[stale] = snapshot(r.out, r.root)
+                r.cleanup()
+            for stale in ("other", "same", "same-twice"):
+                if snaps[stale] is not None and snaps[None] is not None and snaps[stale] != snaps[None]:
+                    diff = sorted(k for k in set(snaps[stale]) | set(snaps[None]) if snaps[stale].get(k) != snaps[None].get(k))
+                    st.violation("output-depends-on-previous-output", f"{pname}/stale", dict(project=pname, options="graph", stale=stale, deviation_kinds="history", sites="", differing=classify(diff[0]), outdir=outdir),
+                                 dict(project=pname, stale=stale, outdir=outdir), diff[:6], "byte-identical output")
     if tier == "thorough":
         for pname in PROJECTS:
             fresh_process_runs(st, pname, [(seed, par, gd) for seed in range(8) for par in (0, 2, 8) for gd in (False, True)] + [(0, 0, False), (0, 2, True)])
